@@ -454,6 +454,13 @@ def j2_j3_constructor_round_trip(ctx) -> None:
             elif family(P, cls) == "rule" and isinstance(c.func, ast.Name) and _is_loaded_strategy(fd, c.func):
                 # VerificationRule: rebuilt by re-applying the strategy
                 ctx.ok("J3", f"{fd.qualname} rebuilds by re-applying the loaded strategy")
+                # ... to the saved class only: whatever else the rule holds (its children) is recomputed by the
+                # strategy; a fixed extra argument replaces that computation (and the check that it still applies)
+                for a in list(c.args[1:]) + [k.value for k in c.keywords]:
+                    if not derived_keys(fd, a):
+                        ctx.violation("J2", c, f"{fd.qualname} re-applies the loaded strategy with the fixed extra argument `{norm(a)}`: nothing is saved for it, "
+                                      "so the reloaded rule gets this value instead of what the strategy computes for the class (children of a verification rule "
+                                      "with dependencies are lost, and a class that no longer qualifies is accepted)")
                 continue
             elif callee == cls.name and not P.subclasses(cls, strict=True) and family(P, cls) is None:
                 target = cls
@@ -748,6 +755,14 @@ def j5_bijection_maps(ctx) -> None:
     fd = P.need_method("Bijection", "from_dict", own=True)
     ctx.analysed(fd)
     comps = [n for n in walk_local(fd.node) if isinstance(n, ast.DictComp) and len(n.generators) == 2]
+    dpar = _dict_param(fd)
+    nested_keys = {k for dc in comps for k in ("order", "index_data") if norm(dc.generators[0].iter) == f"{dpar}['{k}'].items()"}
+    if len(nested_keys) == 1:
+        # one writer (_populate_json_map) produces both maps: two readers that take them apart differently cannot both be right
+        other = ({"order", "index_data"} - nested_keys).pop()
+        ctx.violation("J5", fd.node, f"Bijection.from_dict reads '{sorted(nested_keys)[0]}' as a nested map (outer id -> inner id -> value) but '{other}' in another "
+                      "way; both are written by the same helper (_populate_json_map), so one of them cannot be loaded back", construct="Bijection.from_dict sibling readers")
+        return
     if len(comps) < 2:
         raise AnalysisError("J5: Bijection.from_dict no longer rebuilds its two maps with nested comprehensions")
     for dc in comps:
@@ -795,3 +810,73 @@ def j6_all_rules_written(ctx) -> None:
         ctx.ok("J6", "the start class is written")
     else:
         ctx.violation("J6", m.node, "the specification must write its start class under 'root'", construct="CombinatorialSpecification.to_jsonable root")
+
+
+# ------------------------------------------------------------------------ J8
+def _norm_depth(e: ast.AST) -> int:
+    """Levels of nesting at which the value is rebuilt as a container of a fixed type:
+    tuple(x) -> 1, tuple(tuple(y) for y in x) -> 2, ..."""
+    if isinstance(e, ast.IfExp):
+        return min(_norm_depth(e.body), _norm_depth(e.orelse))
+    if isinstance(e, (ast.Tuple, ast.List)) and not e.elts:
+        return 99
+    if isinstance(e, ast.Call) and isinstance(e.func, ast.Name) and e.func.id in ("tuple", "list", "frozenset") and not e.keywords:
+        if not e.args:
+            return 99
+        a = e.args[0]
+        if isinstance(a, (ast.GeneratorExp, ast.ListComp)) and len(a.generators) == 1:
+            return 1 + _norm_depth(a.elt)
+        return 1
+    return 0
+
+
+def _list_depth(e: ast.AST) -> int:
+    if isinstance(e, ast.ListComp):
+        return 1 + _list_depth(e.elt)
+    if isinstance(e, ast.IfExp):
+        return max(_list_depth(e.body), _list_depth(e.orelse))
+    return 0
+
+
+def j8_container_normalisation(ctx) -> None:
+    """A class compared by __dict__ whose state is saved as (nested) JSON lists is reloaded
+    from lists; it equals the original only if __init__ rebuilds every level the writer
+    saves as a list into one fixed container type, whatever the caller passed."""
+    P = ctx.P
+    n = 0
+    for cls in concrete_pairs(P):
+        if _eq_compares_dict(P, cls) is None:
+            continue
+        init = P.find_method(cls, "__init__")
+        w = P.find_method(cls, "to_jsonable")
+        if init is None or w is None:
+            continue
+        W = written_keys(P, cls) or {}
+        for key, v in W.items():
+            if v is None:
+                continue
+            depth = _list_depth(v)
+            if depth == 0:
+                continue
+            comp = v
+            while isinstance(comp, ast.ListComp) and isinstance(comp.elt, ast.ListComp):
+                comp = comp.elt
+            outer = v.generators[0].iter if isinstance(v, ast.ListComp) else None
+            if outer is None or not (isinstance(outer, ast.Attribute) and isinstance(outer.value, ast.Name) and outer.value.id == "self"):
+                continue
+            attr = outer.attr
+            stores = [a for a in walk_local(init.node) if isinstance(a, (ast.Assign, ast.AnnAssign))
+                      and any(is_self_attr(t, attr) for t in (a.targets if isinstance(a, ast.Assign) else [a.target]))]
+            if not stores:
+                continue
+            n += 1
+            for a in stores:
+                got = _norm_depth(a.value)
+                if got >= depth:
+                    ctx.ok("J8", f"{cls.name}.__init__ rebuilds `{attr}` as fixed containers to depth {depth}, the depth saved as lists under '{key}'")
+                else:
+                    ctx.violation("J8", a, f"{cls.name} is compared by __dict__ and saves `{attr}` as lists nested {depth} deep under '{key}', but __init__ fixes the container "
+                                  f"type only {got} level(s) deep (`{norm(a.value)[:80]}`): an object built from other containers (tuples, as add_* helpers do) differs from "
+                                  "its own reloaded copy, which is always built from lists")
+    if n == 0:
+        ctx.floor("J8", 99)
